@@ -354,8 +354,11 @@ func genParseInput(r *rand.Rand, n *Node, fe string) *Input {
 		}
 		x := r.Intn(100)
 		switch {
-		case x < 60:
+		case x < 54:
 			return val(r.Intn(5))
+		case x < 62:
+			// a value of another Go type that merely CONVERTS to the custom schema's type: still a type mismatch
+			return leaf("val", 1+r.Intn(4), "f64")
 		case x < 70:
 			return sval(1 + r.Intn(3))
 		case x < 80:
